@@ -12,12 +12,82 @@ ASSUME = [
     "FunctionalComponent subclasses; counterexamples are replayed through real YAML -> Program/Hardware/Fusion",
     "representation invariant assumed for the open block: components_used == union of the components bound by its Einsums; "
     "curr_config / fused_ranks are those of its Einsums (the post-condition re-establishes it: inductive step)",
+    "step_kinds uses the REAL component classes (compute, three intersectors, sequencer, merger, buffet) behind a stub Hardware that filters "
+    "by isinstance like Hardware.get_components; which kinds the property calls functional (compute, intersector, sequencer) is the oracle's",
+    "the metrics['blocks'] literal of the emitted dump is compared concretely with the property evaluated on the raw YAML for the multi-Einsum "
+    "members of F-metrics (enumeration, stated as such)",
     "two functional components, two configs; loop orders over 2 ranks (quick) / 3 ranks (thorough); first spatial rank at any position or none",
     "CrossHair explores one path per feasible combination of branch outcomes; 'Confirmed over all paths' is the only passing verdict",
 ]
 
 
+def blocks_oracle(spec, blocks):
+    """the property, evaluated on the raw YAML: program order, contiguity, config, temporal prefix, functional components"""
+    import re
+    from ruamel.yaml import YAML
+    from ..dense import out_name
+    from .c14 import arch_table, einsum_configs
+    names = [out_name(e) for e in spec["exprs"]]
+    flat = [e for b in blocks for e in b]
+    if flat != names:
+        return "blocks %s do not list the Einsums %s exactly once, in program order" % (blocks, names)
+    cfg = einsum_configs(spec)
+    table = arch_table(spec)
+    binds = YAML(typ="safe").load(spec["bindings"])["bindings"]
+    m = spec.get("mapping") or {}
+
+    def prefix(e):
+        lo = list((m.get("loop-order") or {}).get(e) or [])
+        sp = ((m.get("spacetime") or {}).get(e) or {}).get("space") or []
+        sp = [re.sub(r"\.(pos|coord)$", "", x) for x in sp]
+        return lo[:lo.index(sp[0])] if sp else lo
+
+    def functional(e):
+        out = set()
+        for b in binds[e]:
+            c = b.get("component")
+            if c and b.get("bindings") and table[cfg[e]][0].get(c, ("",))[0] in ("compute", "intersector", "sequencer"):
+                out.add(c)
+        return out
+    for b in blocks:
+        for i in range(len(b)):
+            for j in range(i + 1, len(b)):
+                x, y = b[i], b[j]
+                if cfg[x] != cfg[y]:
+                    return "%s and %s share a block but run on configurations %s / %s" % (x, y, cfg[x], cfg[y])
+                if prefix(x) != prefix(y):
+                    return "%s and %s share a block but have temporal prefixes %s / %s" % (x, y, prefix(x), prefix(y))
+                if functional(x) & functional(y):
+                    return "%s and %s share a block and both bind %s" % (x, y, sorted(functional(x) & functional(y)))
+    return None
+
+
+def work_pipeline(job):
+    """concrete: the metrics['blocks'] literal of the emitted dump against the property evaluated on the raw YAML"""
+    import ast
+    import re
+    from .. import e1
+    spec = job["spec"]
+    base = {"name": "dump/" + spec["name"], "concrete": True}
+    try:
+        text = e1.compile_spec(spec, True)
+    except e1.Rejected as r:
+        return dict(base, status="rejected", why=str(r))
+    lines = [l for l in text.split("\n") if l.startswith('metrics["blocks"] = ')]
+    if len(lines) != 1:
+        return dict(base, status="violation", confirmed=True, why="%d metrics['blocks'] assignments in the dump" % len(lines),
+                    sig={"engine": "dump", "what": "count"}, replay={"spec": spec})
+    blocks = ast.literal_eval(lines[0].split(" = ", 1)[1])
+    bad = blocks_oracle(spec, blocks)
+    if bad:
+        return dict(base, status="violation", confirmed=True, why="emitted %s: %s" % (lines[0], bad),
+                    sig={"engine": "dump", "what": bad.split(" ")[0]}, replay={"spec": spec, "blocks": blocks})
+    return dict(base, status="ok")
+
+
 def work(job):
+    if job.get("kind") == "pipeline":
+        return work_pipeline(job)
     t0 = time.time()
     r = chrun.run_condition(HFILE, job["func"], job["timeout"], env=job.get("env"))
     out = {"name": job["name"], "paths_s": r["seconds"], "queries": 1, "solver_s": r["seconds"], "obligations": 1,
@@ -30,6 +100,17 @@ def work(job):
     if v == "confirmed":
         return dict(out, status="ok")
     if v == "counterexample":
+        if job["func"] == "step_kinds":
+            from ..ch import fusion
+            try:
+                res = fusion.step_kinds(*(r.get("args") or []), **(r.get("kwargs") or {}))
+                confirmed = res is False
+            except Exception:    # noqa
+                confirmed = True
+            return dict(out, status="violation", confirmed=confirmed,
+                        why="real component classes: %s" % r["message"][-300:],
+                        sig={"engine": "E5", "harness": "step_kinds"},
+                        replay={"func": "step_kinds", "args": r.get("args"), "kwargs": r.get("kwargs")})
         hist = candidates(job, r)
         from ..ch import fusion
         nr = int(job["env"]["CH_RANKS"])
@@ -86,8 +167,13 @@ def run(tier, seed):
         jobs.append({"name": "step_twin/3ranks", "func": "step_twin", "role": "twin", "timeout": 120, "env": {"CH_RANKS": 3, "CH_SLICE": -1}})
         jobs.append({"name": "history<=3/3ranks", "func": "history", "role": "hunt", "timeout": 600, "env": {"CH_RANKS": 3}})
         jobs.append({"name": "history<=3/2ranks", "func": "history", "role": "hunt", "timeout": 300, "env": {"CH_RANKS": 2}})
+    jobs.append({"name": "step_kinds", "func": "step_kinds", "role": "decide", "timeout": 400, "env": {"CH_RANKS": 2, "CH_SLICE": -1}})
+    from .. import specgen
+    for s in specgen.f_metrics("quick", seed):
+        if len(s["exprs"]) > 1:
+            jobs.append({"kind": "pipeline", "spec": s, "name": s["name"]})
     res = runner.pmap(work, jobs)
-    dec = [r for r in res if r["name"].startswith("step/")]
+    dec = [r for r in res if r["name"].startswith("step")]
     nr = 2 if tier == "quick" else 3
     import math
     paths = (2 * math.factorial(nr) * (nr + 1) * 4) ** 2
@@ -97,8 +183,8 @@ def run(tier, seed):
                        "extends the block - only if config, temporal prefix equal and components disjoint - or opens a new block, and "
                        "re-establishes the invariant; %d conditions, verdicts %s. Path domain per condition set: %d combinations (%d ranks). "
                        "One inductive step from an arbitrary invariant state covers histories of any length; the <=3-history harness is bug hunting only."
-                       % (len(dec), [r["verdict"] for r in dec], paths, nr),
-        "samples": [{"condition": r["name"], "crosshair": r["verdict"], "seconds": round(r["paths_s"], 1), "status": r["status"],
+                       % (len(dec), [r.get("verdict") for r in dec], paths, nr),
+        "samples": [{"condition": r["name"], "crosshair": r.get("verdict"), "seconds": round(r.get("paths_s", 0), 1), "status": r["status"],
                      "why": (r.get("why") or "")[:200]} for r in res],
         "functions_encoded": ["teaal.ir.fusion.Fusion.add_einsum", "teaal.ir.fusion.Fusion.get_blocks"],
         "path_domain": paths,
@@ -111,6 +197,14 @@ def run(tier, seed):
 def replay(data):
     from ..ch import fusion
     rp = data["replay"]
+    if "spec" in rp:
+        r = work_pipeline({"spec": rp["spec"]})
+        print(r.get("why") or "ok")
+        return 1 if r["status"] == "violation" else 0
+    if rp.get("func") == "step_kinds":
+        res = fusion.step_kinds(*(rp.get("args") or []), **(rp.get("kwargs") or {}))
+        print("step_kinds", rp.get("args"), "->", res)
+        return 0 if res else 1
     blocks, ok, y = fusion.replay_history([tuple(x) for x in rp["history"]], rp["nr"])
     print(y)
     print("blocks:", blocks, "legal:", ok)
